@@ -115,7 +115,12 @@ impl Canon {
                 }
                 "T" => writeln!(out, "case {cid}: T {} {} {} {}", self.ix(p[2]), p[3], p[4], p[5]).unwrap(),
                 "X" => writeln!(out, "case {cid}: X {}", self.ix(p[2])).unwrap(),
-                "F" => writeln!(out, "case {cid}: F {} {} {} {} {}", self.ix(p[2]), p[3], p[4], p[5], p[6]).unwrap(),
+                "F" => {
+                    // the rule is named by its limit as written; compared in canonical form (TimeoutLimit's own Display)
+                    use std::str::FromStr;
+                    let on = acts::TimeoutLimit::from_str(p[3]).map(|l| l.to_string()).unwrap_or(p[3].to_string());
+                    writeln!(out, "case {cid}: F {} {} {} {} {}", self.ix(p[2]), on, p[4], p[5], p[6]).unwrap()
+                }
                 "M" => {
                     let js = p[3].replace('\u{1}', " ");
                     let m: Value = serde_json::from_str(&js).unwrap_or(Value::Null);
